@@ -427,7 +427,7 @@ class Builtins:
              'implies', 'num_eq', 'same_num', 'is_ascii', 'py_eq', 'is_obj', 'forall_items', 'is_seq', 'keys_of',
              'is_canonical_b64', 'b64_text', 'is_instance_of', 'class_of', 'is_whole', 'realnum', 'is_ok_float',
              'fresh_from', 'is_fresh', 'same_object', 'is_valid_b64', 'b64_bytes', 'mk_enum',
-             'seq_eq', 'is_wire', 'in_universe', 'on_grid', 'same_value', 'enum_owned', 'forall_int', 'forall_str', 'forall_obj', 'exists_int', 'has_dyn', 'is_prefix', 'unchanged', 'last', 'nth', 'held', 'dict_same_except', 'time_time', 'time_sleep', 'as_float', 'enum_has_name', 'enum_code', 'enum_has_code', 'enum_name'}
+             'seq_eq', 'is_wire', 'in_universe', 'on_grid', 'same_value', 'enum_owned', 'forall_int', 'forall_str', 'forall_obj', 'exists_int', 'has_dyn', 'is_prefix', 'line_removed', 'is_hashable', 'unchanged', 'last', 'nth', 'held', 'dict_same_except', 'time_time', 'time_sleep', 'as_float', 'enum_has_name', 'enum_code', 'enum_has_code', 'enum_name'}
 
     def call(self, it, name, args, kwargs, node):
         m = getattr(self, 'bi_' + name, None)
@@ -590,6 +590,20 @@ class Builtins:
 
     def bi_is_prefix(self, it, a, k, n):
         return SV(V.BoolV(z3.PrefixOf(vals.seqitems(a[0].t), vals.seqitems(a[1].t))))
+
+    def bi_is_hashable(self, it, a, k, n):
+        return SV(V.BoolV(O._hashable(a[0].t)))
+
+    def bi_line_removed(self, it, a, k, n):
+        """line_removed(before, after): exactly the first line of the bytes `before` (up to and including the
+        first newline) is missing in `after`"""
+        x, y = it.refine(a[0].t), it.refine(a[1].t)
+        bx, by = V.by(x), V.by(y)
+        m = z3.Length(bx) - z3.Length(by) - 1
+        head = z3.Extract(bx, z3.IntVal(0), m)
+        nl = z3.Unit(z3.IntVal(10))
+        return SV(V.BoolV(z3.And(V.is_BytesV(x), V.is_BytesV(y), m >= 0, bx == z3.Concat(head, nl, by),
+                                 z3.Not(z3.Contains(head, nl)))))
 
     def bi_enum_owned(self, it, a, k, n):
         """the member object belongs to this Enum object"""
@@ -1322,6 +1336,12 @@ class Builtins:
         raise Unsupported('bytes.decode')
 
     def dm_strip(self, it, obj, a, k):
+        o = it.split_kind(obj)
+        if O.ctor(o.t) == 'BytesV':
+            STRIP = self.world.uf('bstrip!', [z3.SeqSort(IntS), z3.SeqSort(IntS)])
+            r = STRIP(o.t.arg(0))
+            it.assume_axiom(z3.And(z3.Contains(o.t.arg(0), r), z3.Implies(z3.Length(o.t.arg(0)) == 0, z3.Length(r) == 0)))
+            return SV(V.BytesV(r))
         self._need(it, obj, V.is_StrV, '.strip()')
         r = it.fresh('strip', Val)
         it.assume(V.is_StrV(r))
@@ -1345,6 +1365,9 @@ class Builtins:
         return SV(V.BoolV(z3.SuffixOf(V.s(p), V.s(obj.t))))
 
     def dm_split(self, it, obj, a, k):
+        o = it.split_kind(obj)
+        if O.ctor(o.t) == 'BytesV':
+            return self._split_bytes(it, o, a)
         self._need(it, obj, V.is_StrV, '.split()')
         if len(a) == 1 and O.ctor(it.refine(a[0].t)) == 'StrV':
             # split(sep): only the case "separator does not occur" is modelled exactly
@@ -1366,6 +1389,23 @@ class Builtins:
             it.assume_axiom(z3.Implies(z3.Contains(sv, sp), z3.And(sv == z3.Concat(h, sp, t), z3.Not(z3.Contains(h, sp)))))
             return SV(V.ListV(vals.valseq([V.StrV(h), V.StrV(t)])), 'list:str')
         return SV(V.ListV(vals.valseq([V.StrV(sv)])), 'list:str')
+
+    def _split_bytes(self, it, obj, a):
+        """bytes.split(sep, 1)"""
+        if len(a) != 2:
+            raise Unsupported('bytes.split without maxsplit')
+        sep, mx = it.refine(a[0].t), it.refine(a[1].t)
+        if not (O.ctor(mx) == 'IntV' and z3.is_int_value(simp(mx.arg(0))) and simp(mx.arg(0)).as_long() == 1 and O.ctor(sep) == 'BytesV'):
+            raise Unsupported('bytes.split supports only split(sep, 1)')
+        sv, sp = obj.t.arg(0), sep.arg(0)
+        S = z3.SeqSort(IntS)
+        if it.branch(z3.Contains(sv, sp), 'split'):
+            H = self.world.uf('bsplit_head!', [S, S, S])
+            T = self.world.uf('bsplit_tail!', [S, S, S])
+            h, t = H(sv, sp), T(sv, sp)
+            it.assume_axiom(z3.Implies(z3.Contains(sv, sp), z3.And(sv == z3.Concat(h, sp, t), z3.Not(z3.Contains(h, sp)))))
+            return SV(V.ListV(vals.valseq([V.BytesV(h), V.BytesV(t)])), 'list:bytes')
+        return SV(V.ListV(vals.valseq([V.BytesV(sv)])), 'list:bytes')
 
     def dm_lower(self, it, obj, a, k):
         self._need(it, obj, V.is_StrV, '.lower()')
